@@ -10,291 +10,277 @@ them are verified with bodies (the property's cone), claim texts.
 `modes`    : R2 modes to run ("P": fatal! unreachable, "S": fatal! aborts).
 """
 
-PROPS = {
-    "C18": {
-        "title": "Inflights window is a bounded FIFO under resizing",
-        "modules": ["prelude", "inflights"],
-        "body": ["inflights"],
-        "modes": ["P"],
-        "claim": "FULL",
-        "decided": [
-            "every public operation of Inflights (new, set_cap, full, add, free_to, free_first_one, reset, count, "
-            "maybe_free_buffer) transforms the abstract FIFO view (items, capacity, pending capacity) exactly as the "
-            "bounded-FIFO model says, for all states satisfying the representation invariant and all arguments",
-            "add never panics when the window is not full; the internal asserts and all indexings are proved",
-        ],
-        "undecided": [],
-        "assumptions": [
-            "capacities <= 2^60 (larger ones abort in the allocator before an Inflights exists)",
-            "Vec::capacity() >= len (assume_specification); `vec![]` has capacity 0 (R9)",
-            "usize is 64 bit",
-        ],
-    },
-    "C14": {
-        "title": "RaftLog behaves as one logical log over storage + unstable + snapshot",
-        "modules": ["top", "prelude", "pb", "log_unstable", "storage_trait", "raft_log"],
-        "body": ["log_unstable", "storage_trait", "config", "util", "raft_log"],
-        "modes": ["P", "S"],
-        "claim": "FULL (relative to the Storage trait contract, which module memstorage/C19 proves for MemStorage)",
-        "decided": [
-            "every query of Unstable and RaftLog (first/last index, term, match_term, last_term, find_conflict, find_conflict_by_term, "
-            "is_up_to_date, entries, slice, next_entries_since, has_next_entries_since, commit_info) equals the logical-log model "
-            "(snapshot point + contiguous entries; unstable wins from its offset) for every state satisfying the representation invariant",
-            "every mutator (append, truncate_and_append, maybe_append, commit_to, maybe_commit, maybe_persist, maybe_persist_snap, "
-            "stable_entries, stable_snap, restore, applied_to) transforms the model as stated, preserves the invariant "
-            "(committed <= last, persisted < unstable offset), raises persisted only to an index stable storage holds with the matching term, "
-            "and never alters an entry at or below the commit index (mode S: on every normal return, with no assumption on the arguments)",
-            "size-limited reads return limit_prefix (non-empty maximal prefix within the limit) of the model range, incl. the storage/unstable stitch lemma",
-        ],
-        "undecided": ["RaftLog::scan (FnMut callback) and all_entries (test-only) are not under contract"],
-        "bounded": ["util::limit_size itself is an assumed contract in Verus; bounded Kani stand-in on the extracted text (thorough tier)"],
-        "assumptions": [
-            "the Storage implementation satisfies the trait contract of spec/storage_trait.vrs and the application keeps it so between calls",
-            "indexes/terms/sizes < 2^62, collection lengths < 2^32 (explicit requires)",
-            "entries in messages carry term > 0; (index 0, term 0) is the dummy entry",
-            "Unstable.entries_size byte accounting is cut out (R10): no property reads it",
-            "util::limit_size returns limit_prefix (assumed in Verus)",
-        ],
-    },
-    "C19": {
-        "title": "MemStorage honours the Storage contract",
-        "modules": ["top", "prelude", "pb", "log_unstable", "storage_trait", "raft_log", "memstorage"],
-        "body": ["storage_trait", "util", "memstorage"],
-        "modes": ["P", "S"],
-        "claim": "FULL for the single-threaded semantics (the RwLock is modelled as the protected value)",
-        "decided": [
-            "MemStorageCore::{append, compact, apply_snapshot, commit_to, set_hardstate, set_conf_state, snapshot, first_index, last_index, "
-            "has_entry_at, commit_to_and_set_conf_states} transform / answer the model (snapshot point + contiguous entries) exactly",
-            "impl Storage for MemStorage: first_index/last_index/term/entries/snapshot/initial_state answer the model, with Compacted below "
-            "first, Unavailable above last, the snapshot term at the snapshot index, entries = limit_prefix of the range (>= 1 entry for a "
-            "non-empty range), snapshot index >= request and, at the commit index, that index's term and the stored conf state",
-            "the impl's postconditions are checked against the Storage TRAIT contract that RaftLog (C14) is verified against",
-        ],
-        "undecided": ["concurrent use of the RwLock (no concurrency claim is made)"],
-        "bounded": ["util::limit_size: see C14"],
-        "assumptions": [
-            "R16: Arc<RwLock<MemStorageCore>> modelled as the protected value; rl()/wl() guards dereference to it",
-            "Vec::drain(..n)/drain(n..) with the iterator dropped = remove prefix/suffix (R9); <[T]>::to_vec copies (R9)",
-            "indexes < 2^62, lengths < 2^32; a snapshot at index 0 has term 0",
-        ],
-    },
-    "C20": {
-        "title": "No panic or internal-check failure under contract-abiding use",
-        "modules": ["top", "prelude", "pb", "inflights", "log_unstable", "storage_trait", "raft_log", "memstorage"],
-        "body": ["inflights", "log_unstable", "storage_trait", "config", "util", "raft_log", "memstorage"],
-        "modes": ["P"],
-        "claim": "PARTIAL",
-        "decided": [
-            "for every function under contract (mode P: fatal!/panic!/assert!/unwrap/index/overflow sites are proof obligations) the panic "
-            "sites are unreachable under the function's stated precondition, and every call site inside a verified function establishes "
-            "its callee's precondition",
-        ],
-        "undecided": [
-            "that the stated preconditions hold in every reachable cluster state (needs the global invariant)",
-            "functions not under contract (listed per module in DESIGN.md)",
-        ],
-        "assumptions": ["see C14, C18, C19"],
-    },
-    "C11": {
-        "title": "Quorum arithmetic: commit index and vote tallies are exact",
-        "modules": ["top", "prelude", "pb", "inflights", "progress", "quorum", "tracker"],
-        "body": ["quorum", "tracker"],
-        "modes": ["P"],
-        "claim": "FULL for the arithmetic and the heap collection path; the unsafe stack-array fast path for <= 7 voters is assumed to produce the same listing as the (verified) heap path, and sort_by to be a sorted permutation (R10/R9)",
-        "decided": [
-            "util::majority(n) = n/2+1 (2r > n, 2(r-1) <= n)",
-            "MajorityConfig::committed_index: empty => (u64::MAX, true); without group commit the result IS the largest index acknowledged by a "
-            "majority of the voter set (count-based definition over the set, for every voter set and every ack assignment); with group commit "
-            "the result never exceeds it and, when every voter has a group and the flag is returned, equals the largest index <= the quorum "
-            "index replicated into two different groups; with a single group it is the quorum index",
-            "MajorityConfig::vote_result equals the model (Won iff yes-set is a majority, Lost iff yes+missing cannot reach one, empty => Won) "
-            "for every check function; JointConfig::{committed_index (min of the halves), vote_result (3x3 table), is_singleton, contains}",
-            "ProgressTracker::{maximal_committed_index (ack = matched, group = commit_group_id), vote_result, has_quorum, is_singleton, get} as wrappers",
-        ],
-        "undecided": ["ProgressTracker::{tally_votes counts, record_vote, quorum_recently_active} are not under contract in this revision"],
-        "assumptions": [
-            "R10: the unsafe MaybeUninit stack-array fill of committed_index (<= 7 voters) yields the same listing as the heap path, which is verified for every size (assumed; no deductive back end here can execute the unsafe code; the replay monitor mon_c11 exercises it on the real crate)",
-            "R9: sort_by(descending index) is a sorted permutation",
-            "crate::HashSet/HashMap (fxhash) behave like std's with a lawful hasher; vstd's HashSet/HashMap model",
-            "voter sets have < 2^32 members",
-        ],
-    },
-    "C13": {
-        "title": "Replication flow control and well-formed append/heartbeat messages",
-        "modules": ["top", "prelude", "pb", "inflights", "progress", "quorum", "tracker", "log_unstable", "storage_trait", "raft_log", "raft"],
-        "body": {"P": ["inflights", "progress"], "S": ["inflights", "progress", "raft"]},
-        "cone": ["log_unstable", "raft_log"],
-        "modes": ["P", "S"],
-        "claim": "PARTIAL (every per-call clause is decided; 'toward each follower over time' is carried by the representation invariants count <= cap and by the contracts of add/free_to, not by a history proof)",
-        "decided": [
-            "Progress: is_paused = (Probe: paused; Replicate: window full; Snapshot: always); update_state adds exactly one in-flight index "
-            "(Replicate, requires not full) or pauses (Probe); maybe_update / maybe_decr_to / become_* as modelled",
-            "RaftCore::maybe_send_append: paused on entry => returns false, msgs and progress unchanged (none while a snapshot is outstanding, "
-            "none beyond the window, none while a probe is un-acked); a pushed MsgAppend is anchored at (next_idx-1, term of that index in the "
-            "leader's own log), carries exactly limit_prefix(log[next_idx..], max_size_per_msg) (<= max bytes unless a single entry), "
-            "commit == leader commit, term == leader term; non-empty appends are registered in the progress (one more in-flight / probe paused)",
-            "send_heartbeat: commit <= leader commit and <= follower's matched index",
-            "UncommittedState: a proposal is admitted iff no limit, empty payload, nothing outstanding, or it fits; reduce never underflows",
-            "Inflights: count <= capacity always (C18 invariant)",
-        ],
-        "undecided": [
-            "try_batching (iter_mut over &mut [Message]) is an ASSUMED contract; with batch_append on, clauses about the batched message rely on it",
-            "history-level 'at most N unacknowledged toward each follower over time' is not lifted from the per-call contracts",
-        ],
-        "bounded": ["try_batching: K-extracted bounded harness (thorough tier, when built)"],
-        "assumptions": ["C14's RaftLog contracts (proved there)", "RaftCore functions are verified in mode S (fatal!/panic! abort): clauses hold on every normal return"],
-    },
-    "C03": {
-        "title": "Leader completeness and the election restriction",
-        "modules": ["top", "prelude", "pb", "inflights", "progress", "quorum", "tracker", "log_unstable", "storage_trait", "raft_log", "raft"],
-        "body": {"P": ["log_unstable", "raft_log"], "S": ["log_unstable", "raft_log", "raft"]},
-        "modes": ["P", "S"],
-        "claim": "PARTIAL (second sentence of the statement: the election restriction, per call)",
-        "decided": [
-            "Raft::step: every Msg(Pre)VoteResponse with reject == false pushed while handling a (pre-)vote request implies that the "
-            "candidate's (log_term, index) is lexicographically >= the voter's own (last_term, last_index), in every role and state; "
-            "no other message type makes step emit a grant",
-            "RaftLog::is_up_to_date / last_term / last_index equal the model (C14)",
-            "maybe_commit_by_vote moves the commit index only through RaftLog::maybe_commit (term of that index must match) and keeps term and vote",
-            "campaign / poll: every (pre-)vote request advertises the candidate's own (last_index, last_term, commit); a candidate counts only MsgRequestVoteResponse and a pre-candidate only "
-            "MsgRequestPreVoteResponse (a response of the other kind changes nothing); the poll result is exactly the tally of the recorded votes (first vote of a voter sticks); "
-            "state Leader is entered only from poll on Won",
-        ],
-        "undecided": [
-            "leader completeness (first sentence): needs the cluster-wide induction over all schedules",
-            "step_leader / step_follower are ASSUMED not to emit grants and to ignore stray vote responses (their bodies are not under contract in this revision)",
-        ],
-        "assumptions": ["raft.rs functions are verified in mode S (fatal!/panic! abort): clauses hold on every normal return",
-                        "assumed handler contract step_frame (term monotone, one vote per term, msgs append-only, no grants)"],
-    },
-    "C06": {
-        "title": "Promises survive crashes: persist-before-send, one vote per term",
-        "modules": ["top", "prelude", "pb", "inflights", "progress", "quorum", "tracker", "log_unstable", "storage_trait", "raft_log", "raft", "raw_node"],
-        "body": {"S": ["raft", "raw_node"]},
-        "modes": ["S"],
-        "claim": "PARTIAL (per-call: term monotone, one vote per term, restart state; the release discipline of Ready is added with the raw_node unit)",
-        "decided": [
-            "Raft::step: term never decreases; within a term the vote changes only from 'none' and, for vote requests, only to the requesting candidate of a real vote at that term",
-            "reset/become_follower/become_candidate/become_pre_candidate: vote is cleared only together with a term change; a candidate votes for itself in the new term; a pre-candidate keeps term and vote",
-            "load_state installs exactly the stored (term, vote, commit) and aborts on a commit outside [committed, last]",
-            "RaftCore::send only fills from/term/priority and pushes exactly one message",
-            "release discipline of ready(): a non-leader's messages are all persisted_messages(); messages released for immediate sending (leader) are never released in a Ready that also carries a term or vote change (finding F1, fixed in /repo)",
-        ],
-        "undecided": [
-            "'never behind anything it has told another node' across a crash: a statement about the application's write/fsync/send order",
-            "role handlers are assumed to satisfy step_frame",
-        ],
-        "assumptions": ["mode S", "assumed handler contract step_frame", "R10: the iter_mut loop of reset is assumed to reset every progress as written"],
-    },
-    "C16": {
-        "title": "PreVote + CheckQuorum: a node that cannot win does not disrupt the cluster",
-        "modules": ["top", "prelude", "pb", "inflights", "progress", "quorum", "tracker", "log_unstable", "storage_trait", "raft_log", "raft"],
-        "body": {"S": ["raft"]},
-        "modes": ["S"],
-        "claim": "PARTIAL (first sentence and the lease rule, per call)",
-        "decided": [
-            "Raft::step with a MsgRequestPreVote never changes the receiver's term or vote, in any state",
-            "lease rule: a (pre-)vote request with a higher term and without the transfer context, arriving while check_quorum && a leader is known && "
-            "election_elapsed < election_timeout, returns Ok with NO field of the node changed and no message pushed",
-            "become_pre_candidate keeps term and vote",
-            "a granted pre-vote response never makes a node adopt the (future) term it carries: the term changes only for a pre-candidate (by winning); "
-            "poll: unless the result is Won, term and vote are unchanged; campaign(PRE_ELECTION) that leaves the node a pre-candidate keeps term and vote",
-        ],
-        "undecided": ["non-disruption of a lock-step majority over all schedules of the minority (second sentence)", "step_leader / step_follower are assumed to ignore pre-vote responses"],
-        "assumptions": ["mode S", "assumed handler contract step_frame"],
-    },
-    "C07": {
-        "title": "Ready contract: exact, ordered, persisted-only hand-off of entries",
-        "modules": ["top", "prelude", "pb", "inflights", "progress", "quorum", "tracker", "log_unstable", "storage_trait", "raft_log", "raft", "raw_node"],
-        "body": {"P": ["log_unstable", "raft_log"], "S": ["log_unstable", "raft_log", "raw_node"]},
-        "modes": ["P", "S"],
-        "claim": "PARTIAL (every per-call clause of ready/has_ready/gen_light_ready; the lifetime 'exactly once' statement is not lifted from them)",
-        "decided": [
-            "has_ready() is true exactly when ready() would return something: both equal the same spec function of the node state",
-            "ready(): entries = the whole unstable suffix; hs = Some(current (term, vote, commit)) iff it differs from the last one handed out; "
-            "must_sync whenever entries, a snapshot, or a term/vote change are included; with a pending snapshot no committed entries are handed "
-            "out and commit_since_index jumps to the snapshot index; a record (number, last entry, snapshot) is pushed",
-            "gen_light_ready(): committed entries = limit_prefix(log[max(since+1, first) ..= min(committed, persisted + limit)], max_committed_size_per_ready): "
-            "contiguous, starting right after commit_since_index (given first <= since+1), never beyond min(committed, persisted + max_apply_unpersisted_log_limit); "
-            "commit_since_index advances to the last handed index; messages are moved out exactly once",
-            "RaftLog::next_entries_since / has_next_entries_since / applied_index_upper_bound equal the model (C14)",
-        ],
-        "undecided": [
-            "'over a node's lifetime exactly its committed log, no gap or duplicate' as a history statement (the per-call clauses chain, the induction is not mechanised)",
-            "commit_ready / on_persist_ready / advance_append are not under contract in this revision",
-            "the two asserts inside the records.drain(..) loop at the follower->leader edge (R10 cut)",
-        ],
-        "assumptions": ["raw_node.rs functions are verified in mode S", "payload-size sums fit in usize"],
-    },
-    "C05": {
-        "title": "Log matching; leaders append-only; committed prefix immutable",
-        "modules": ["top", "prelude", "pb", "inflights", "progress", "quorum", "tracker", "log_unstable", "storage_trait", "raft_log", "raft"],
-        "body": {"P": ["log_unstable", "raft_log"], "S": ["log_unstable", "raft_log", "raft"]},
-        "modes": ["P", "S"],
-        "claim": "PARTIAL (per node and per call: acceptance rule, truncation point, immutability of the committed prefix)",
-        "decided": [
-            "RaftLog::maybe_append accepts iff (prev index, prev term) matches, truncates only from the first conflicting index, keeps every entry "
-            "at or below the commit index (mode S: on every normal return with NO assumption on the message: a conflict at or below the commit "
-            "index aborts instead of truncating), lowers persisted below the conflict, holds the new entries afterwards",
-            "RaftLog::append / Unstable::truncate_and_append: log' = log[..after) ++ ents; nothing below the first appended index changes",
-            "Raft::handle_append_entries: exactly one reply; accepted iff match, reply index = last new index; a rejection leaves the log unchanged "
-            "and carries a hint (index <= min(m.index, last), term of that index <= m.log_term); the committed prefix is never altered",
-            "find_conflict / find_conflict_by_term equal the model (C14)",
-        ],
-        "undecided": ["the pairwise statement over two nodes' logs (log matching proper)", "'a leader never removes or rewrites an entry of its own log while it leads' as a history statement (append_entry is not under contract in this revision)"],
-        "assumptions": ["mode S for raft.rs", "message shape: contiguous entries with term > 0 (what peers running this library send)"],
-    },
-    "C04": {
-        "title": "Commit rule: only own-term entries that are durable on a quorum",
-        "modules": ["top", "prelude", "pb", "inflights", "progress", "quorum", "tracker", "log_unstable", "storage_trait", "raft_log", "raft"],
-        "body": {"P": ["quorum", "tracker", "log_unstable", "raft_log"], "S": ["quorum", "tracker", "log_unstable", "raft_log", "raft"]},
-        "cone": ["progress"],
-        "modes": ["P", "S"],
-        "claim": "PARTIAL (leader-side rule per call; follower-side bounds per call)",
-        "decided": [
-            "Raft::maybe_commit advances the commit index only to an index <= the quorum index of the active (joint) configuration over the "
-            "progress map's matched indexes (C11) whose entry carries the leader's current term (RaftLog::maybe_commit)",
-            "the leader's own matched index is written only by reset (= persisted) and by on_persist_entries (to the index the log just accepted "
-            "as persisted); maybe_persist refuses indexes at or beyond the first not-yet-written update and requires the stored term to match",
-            "follower: maybe_append / handle_append_entries never commit beyond min(leader commit, last new index); handle_heartbeat never beyond m.commit; heartbeats advertise commit <= matched",
-        ],
-        "undecided": ["'a non-leader's commit index never moves beyond an index some leader committed' and survival under minority crash (global)"],
-        "assumptions": ["mode S for raft.rs", "ProgressTracker::get_mut assumed (HashMap::get_mut has no vstd spec)", "R10/R9 of C11"],
-    },
-    "C15": {
-        "title": "Snapshot install and log compaction preserve state and safety",
-        "modules": ["top", "prelude", "pb", "inflights", "progress", "quorum", "tracker", "log_unstable", "storage_trait", "raft_log", "raft"],
-        "body": {"P": ["log_unstable", "raft_log", "progress"], "S": ["log_unstable", "raft_log", "progress", "raft"]},
-        "modes": ["P", "S"],
-        "claim": "PARTIAL (install decision, log/commit effect, leader-side send/resume rules; configuration rebuild is assumed until the membership unit)",
-        "decided": [
-            "Raft::restore: returns false with nothing changed if the snapshot is behind the commit index or does not list the node; if (index, term) "
-            "matches the log and no snapshot was requested it only commits up to the index and discards nothing; otherwise RaftLog::restore: "
-            "commit = index, boundary term = snapshot term, later appends continue at index+1, pending request cleared",
-            "RaftLog::restore / Unstable::restore equal the model; persisted is lowered to the old commit index",
-            "leader: maybe_send_append sends MsgSnapshot only if the follower asked for one or the term/entries it needs are unavailable, and then "
-            "moves the progress to Snapshot(index); become_probe after a snapshot resumes at max(matched, pending_snapshot)+1",
-        ],
-        "undecided": ["equality of application state; 'compaction changes no other guarantee'", "the configuration rebuilt from the snapshot (confchange::restore, post_conf_change) is an assumed contract in this revision",
-                      "handle_snapshot_status / handle_append_response are not under contract in this revision"],
-        "assumptions": ["mode S for raft.rs", "R9: the iterator chain membership test of Raft::restore; R10: its untested tail"],
-    },
-    "C09": {
-        "title": "Membership changes: one at a time, config is a function of applied log",
-        "modules": ["top", "prelude", "pb", "inflights", "progress", "quorum", "tracker", "log_unstable", "storage_trait", "raft_log", "raft"],
-        "body": {"S": ["raft"]},
-        "modes": ["S"],
-        "claim": "PARTIAL (election-side clauses only in this revision: (b) and (d) of DESIGN.md section 5/C09)",
-        "decided": [
-            "hup: a leader ignores it; no campaign starts while a committed membership change is unapplied (the range (applied or pending snapshot, committed] holds a "
-            "conf-change entry): the node is left completely unchanged",
-            "tick_election never steps MsgHup when the node is not promotable (only election_elapsed changes) or before the randomized timeout",
-            "become_leader conservatively sets pending_conf_index to the last index of its log and appends exactly one entry of its own term",
-        ],
-        "undecided": [
-            "the proposal filter of step_leader/MsgPropose, commit_apply's auto-leave proposal, apply_conf_change/post_conf_change (promotable = voter) and the function-of-applied-log statement are not under contract in this revision",
-            "'a leader's log never holds more than one unapplied membership entry' across leader changes (cluster-level)",
-        ],
-        "assumptions": ["mode S", "has_unapplied_conf_changes is an ASSUMED contract (RaftLog::scan takes an FnMut): it reports exactly whether the range holds a conf-change entry"],
-    },
-}
+PROPS = {'C18': {'title': 'Inflights window is a bounded FIFO under resizing',
+         'modules': ['prelude', 'inflights'],
+         'body': ['inflights'],
+         'modes': ['P'],
+         'claim': 'FULL',
+         'decided': ['every public operation of Inflights (new, set_cap, full, add, free_to, free_first_one, reset, count, maybe_free_buffer) transforms the '
+                     'abstract FIFO view (items, capacity, pending capacity) exactly as the bounded-FIFO model says, for all states satisfying the '
+                     'representation invariant and all arguments',
+                     'add never panics when the window is not full; the internal asserts and all indexings are proved'],
+         'undecided': [],
+         'assumptions': ['capacities <= 2^60 (larger ones abort in the allocator before an Inflights exists)',
+                         'Vec::capacity() >= len (assume_specification); `vec![]` has capacity 0 (R9)',
+                         'usize is 64 bit']},
+ 'C14': {'title': 'RaftLog behaves as one logical log over storage + unstable + snapshot',
+         'modules': ['top', 'prelude', 'pb', 'log_unstable', 'storage_trait', 'raft_log'],
+         'body': ['log_unstable', 'storage_trait', 'config', 'util', 'raft_log'],
+         'modes': ['P', 'S'],
+         'claim': 'FULL (relative to the Storage trait contract, which module memstorage/C19 proves for MemStorage)',
+         'decided': ['every query of Unstable and RaftLog (first/last index, term, match_term, last_term, find_conflict, find_conflict_by_term, is_up_to_date, '
+                     'entries, slice, next_entries_since, has_next_entries_since, commit_info) equals the logical-log model (snapshot point + contiguous '
+                     'entries; unstable wins from its offset) for every state satisfying the representation invariant',
+                     'every mutator (append, truncate_and_append, maybe_append, commit_to, maybe_commit, maybe_persist, maybe_persist_snap, stable_entries, '
+                     'stable_snap, restore, applied_to) transforms the model as stated, preserves the invariant (committed <= last, persisted < unstable '
+                     'offset), raises persisted only to an index stable storage holds with the matching term, and never alters an entry at or below the commit '
+                     'index (mode S: on every normal return, with no assumption on the arguments)',
+                     'size-limited reads return limit_prefix (non-empty maximal prefix within the limit) of the model range, incl. the storage/unstable stitch '
+                     'lemma'],
+         'undecided': ['RaftLog::scan (FnMut callback) and all_entries (test-only) are not under contract'],
+         'bounded': ['util::limit_size itself is an assumed contract in Verus; bounded Kani stand-in on the extracted text (thorough tier)'],
+         'assumptions': ['the Storage implementation satisfies the trait contract of spec/storage_trait.vrs and the application keeps it so between calls',
+                         'indexes/terms/sizes < 2^62, collection lengths < 2^32 (explicit requires)',
+                         'entries in messages carry term > 0; (index 0, term 0) is the dummy entry',
+                         'Unstable.entries_size byte accounting is cut out (R10): no property reads it',
+                         'util::limit_size returns limit_prefix (assumed in Verus)']},
+ 'C19': {'title': 'MemStorage honours the Storage contract',
+         'modules': ['top', 'prelude', 'pb', 'log_unstable', 'storage_trait', 'raft_log', 'memstorage'],
+         'body': ['storage_trait', 'util', 'memstorage'],
+         'modes': ['P', 'S'],
+         'claim': 'FULL for the single-threaded semantics (the RwLock is modelled as the protected value)',
+         'decided': ['MemStorageCore::{append, compact, apply_snapshot, commit_to, set_hardstate, set_conf_state, snapshot, first_index, last_index, '
+                     'has_entry_at, commit_to_and_set_conf_states} transform / answer the model (snapshot point + contiguous entries) exactly',
+                     'impl Storage for MemStorage: first_index/last_index/term/entries/snapshot/initial_state answer the model, with Compacted below first, '
+                     'Unavailable above last, the snapshot term at the snapshot index, entries = limit_prefix of the range (>= 1 entry for a non-empty range), '
+                     "snapshot index >= request and, at the commit index, that index's term and the stored conf state",
+                     "the impl's postconditions are checked against the Storage TRAIT contract that RaftLog (C14) is verified against"],
+         'undecided': ['concurrent use of the RwLock (no concurrency claim is made)'],
+         'bounded': ['util::limit_size: see C14'],
+         'assumptions': ['R16: Arc<RwLock<MemStorageCore>> modelled as the protected value; rl()/wl() guards dereference to it',
+                         'Vec::drain(..n)/drain(n..) with the iterator dropped = remove prefix/suffix (R9); <[T]>::to_vec copies (R9)',
+                         'indexes < 2^62, lengths < 2^32; a snapshot at index 0 has term 0']},
+ 'C20': {'title': 'No panic or internal-check failure under contract-abiding use',
+         'modules': ['top', 'prelude', 'pb', 'inflights', 'log_unstable', 'storage_trait', 'raft_log', 'memstorage'],
+         'body': ['inflights', 'log_unstable', 'storage_trait', 'config', 'util', 'raft_log', 'memstorage'],
+         'modes': ['P'],
+         'claim': 'PARTIAL',
+         'decided': ['for every function under contract (mode P: fatal!/panic!/assert!/unwrap/index/overflow sites are proof obligations) the panic sites are '
+                     "unreachable under the function's stated precondition, and every call site inside a verified function establishes its callee's "
+                     'precondition'],
+         'undecided': ['that the stated preconditions hold in every reachable cluster state (needs the global invariant)',
+                       'functions not under contract (listed per module in DESIGN.md)'],
+         'assumptions': ['see C14, C18, C19']},
+ 'C11': {'title': 'Quorum arithmetic: commit index and vote tallies are exact',
+         'modules': ['top', 'prelude', 'pb', 'inflights', 'progress', 'quorum', 'tracker'],
+         'body': ['quorum', 'tracker'],
+         'modes': ['P'],
+         'claim': 'FULL for the arithmetic and the heap collection path; the unsafe stack-array fast path for <= 7 voters is assumed to produce the same '
+                  'listing as the (verified) heap path, and sort_by to be a sorted permutation (R10/R9)',
+         'decided': ['util::majority(n) = n/2+1 (2r > n, 2(r-1) <= n)',
+                     'MajorityConfig::committed_index: empty => (u64::MAX, true); without group commit the result IS the largest index acknowledged by a '
+                     'majority of the voter set (count-based definition over the set, for every voter set and every ack assignment); with group commit the '
+                     'result never exceeds it and, when every voter has a group and the flag is returned, equals the largest index <= the quorum index '
+                     'replicated into two different groups; with a single group it is the quorum index',
+                     'MajorityConfig::vote_result equals the model (Won iff yes-set is a majority, Lost iff yes+missing cannot reach one, empty => Won) for '
+                     'every check function; JointConfig::{committed_index (min of the halves), vote_result (3x3 table), is_singleton, contains}',
+                     'ProgressTracker::{maximal_committed_index (ack = matched, group = commit_group_id), vote_result, has_quorum, is_singleton, get} as '
+                     'wrappers'],
+         'undecided': ['ProgressTracker::{tally_votes counts, record_vote, quorum_recently_active} are not under contract in this revision'],
+         'assumptions': ['R10: the unsafe MaybeUninit stack-array fill of committed_index (<= 7 voters) yields the same listing as the heap path, which is '
+                         'verified for every size (assumed; no deductive back end here can execute the unsafe code; the replay monitor mon_c11 exercises it on '
+                         'the real crate)',
+                         'R9: sort_by(descending index) is a sorted permutation',
+                         "crate::HashSet/HashMap (fxhash) behave like std's with a lawful hasher; vstd's HashSet/HashMap model",
+                         'voter sets have < 2^32 members']},
+ 'C13': {'title': 'Replication flow control and well-formed append/heartbeat messages',
+         'modules': ['top', 'prelude', 'pb', 'inflights', 'progress', 'quorum', 'tracker', 'log_unstable', 'storage_trait', 'raft_log', 'raft'],
+         'body': {'P': ['inflights', 'progress'], 'S': ['inflights', 'progress']},
+         'cone': {'P': ['log_unstable', 'raft_log'], 'S': ['log_unstable', 'raft', 'raft_log']},
+         'modes': ['P', 'S'],
+         'claim': "PARTIAL (every per-call clause is decided; 'toward each follower over time' is carried by the representation invariants count <= cap and by "
+                  'the contracts of add/free_to, not by a history proof)',
+         'decided': ['Progress: is_paused = (Probe: paused; Replicate: window full; Snapshot: always); update_state adds exactly one in-flight index '
+                     '(Replicate, requires not full) or pauses (Probe); maybe_update / maybe_decr_to / become_* as modelled',
+                     'RaftCore::maybe_send_append: paused on entry => returns false, msgs and progress unchanged (none while a snapshot is outstanding, none '
+                     "beyond the window, none while a probe is un-acked); a pushed MsgAppend is anchored at (next_idx-1, term of that index in the leader's "
+                     'own log), carries exactly limit_prefix(log[next_idx..], max_size_per_msg) (<= max bytes unless a single entry), commit == leader commit, '
+                     'term == leader term; non-empty appends are registered in the progress (one more in-flight / probe paused)',
+                     "send_heartbeat: commit <= leader commit and <= follower's matched index",
+                     'UncommittedState: a proposal is admitted iff no limit, empty payload, nothing outstanding, or it fits; reduce never underflows',
+                     'Inflights: count <= capacity always (C18 invariant)'],
+         'undecided': ['try_batching (iter_mut over &mut [Message]) is an ASSUMED contract; with batch_append on, clauses about the batched message rely on it',
+                       "history-level 'at most N unacknowledged toward each follower over time' is not lifted from the per-call contracts"],
+         'bounded': ['try_batching: K-extracted bounded harness (thorough tier, when built)'],
+         'assumptions': ["C14's RaftLog contracts (proved there)",
+                         'RaftCore functions are verified in mode S (fatal!/panic! abort): clauses hold on every normal return']},
+ 'C03': {'title': 'Leader completeness and the election restriction',
+         'modules': ['top', 'prelude', 'pb', 'inflights', 'progress', 'quorum', 'tracker', 'log_unstable', 'storage_trait', 'raft_log', 'raft'],
+         'body': {'P': ['log_unstable', 'raft_log'], 'S': ['log_unstable', 'raft_log']},
+         'modes': ['P', 'S'],
+         'claim': 'PARTIAL (second sentence of the statement: the election restriction, per call)',
+         'decided': ["Raft::step: every Msg(Pre)VoteResponse with reject == false pushed while handling a (pre-)vote request implies that the candidate's "
+                     "(log_term, index) is lexicographically >= the voter's own (last_term, last_index), in every role and state; no other message type makes "
+                     'step emit a grant',
+                     'RaftLog::is_up_to_date / last_term / last_index equal the model (C14)',
+                     'maybe_commit_by_vote moves the commit index only through RaftLog::maybe_commit (term of that index must match) and keeps term and vote',
+                     "campaign / poll: every (pre-)vote request advertises the candidate's own (last_index, last_term, commit); a candidate counts only "
+                     'MsgRequestVoteResponse and a pre-candidate only MsgRequestPreVoteResponse (a response of the other kind changes nothing); the poll '
+                     'result is exactly the tally of the recorded votes (first vote of a voter sticks); state Leader is entered only from poll on Won'],
+         'undecided': ['leader completeness (first sentence): needs the cluster-wide induction over all schedules',
+                       'step_leader / step_follower are ASSUMED not to emit grants and to ignore stray vote responses (their bodies are not under contract in '
+                       'this revision)'],
+         'assumptions': ['raft.rs functions are verified in mode S (fatal!/panic! abort): clauses hold on every normal return',
+                         'assumed handler contract step_frame (term monotone, one vote per term, msgs append-only, no grants)'],
+         'cone': {'P': [], 'S': ['raft']}},
+ 'C06': {'title': 'Promises survive crashes: persist-before-send, one vote per term',
+         'modules': ['top', 'prelude', 'pb', 'inflights', 'progress', 'quorum', 'tracker', 'log_unstable', 'storage_trait', 'raft_log', 'raft', 'raw_node'],
+         'body': {'S': []},
+         'modes': ['S'],
+         'claim': 'PARTIAL (per-call: term monotone, one vote per term, restart state; the release discipline of Ready is added with the raw_node unit)',
+         'decided': ["Raft::step: term never decreases; within a term the vote changes only from 'none' and, for vote requests, only to the requesting "
+                     'candidate of a real vote at that term',
+                     'reset/become_follower/become_candidate/become_pre_candidate: vote is cleared only together with a term change; a candidate votes for '
+                     'itself in the new term; a pre-candidate keeps term and vote',
+                     'load_state installs exactly the stored (term, vote, commit) and aborts on a commit outside [committed, last]',
+                     'RaftCore::send only fills from/term/priority and pushes exactly one message',
+                     "release discipline of ready(): a non-leader's messages are all persisted_messages(); messages released for immediate sending (leader) "
+                     'are never released in a Ready that also carries a term or vote change (finding F1, fixed in /repo)'],
+         'undecided': ["'never behind anything it has told another node' across a crash: a statement about the application's write/fsync/send order",
+                       'role handlers are assumed to satisfy step_frame'],
+         'assumptions': ['mode S', 'assumed handler contract step_frame', 'R10: the iter_mut loop of reset is assumed to reset every progress as written'],
+         'cone': {'S': ['raft', 'raw_node']}},
+ 'C16': {'title': 'PreVote + CheckQuorum: a node that cannot win does not disrupt the cluster',
+         'modules': ['top', 'prelude', 'pb', 'inflights', 'progress', 'quorum', 'tracker', 'log_unstable', 'storage_trait', 'raft_log', 'raft'],
+         'body': {'S': []},
+         'modes': ['S'],
+         'claim': 'PARTIAL (first sentence and the lease rule, per call)',
+         'decided': ["Raft::step with a MsgRequestPreVote never changes the receiver's term or vote, in any state",
+                     'lease rule: a (pre-)vote request with a higher term and without the transfer context, arriving while check_quorum && a leader is known '
+                     '&& election_elapsed < election_timeout, returns Ok with NO field of the node changed and no message pushed',
+                     'become_pre_candidate keeps term and vote',
+                     'a granted pre-vote response never makes a node adopt the (future) term it carries: the term changes only for a pre-candidate (by '
+                     'winning); poll: unless the result is Won, term and vote are unchanged; campaign(PRE_ELECTION) that leaves the node a pre-candidate keeps '
+                     'term and vote'],
+         'undecided': ['non-disruption of a lock-step majority over all schedules of the minority (second sentence)',
+                       'step_leader / step_follower are assumed to ignore pre-vote responses'],
+         'assumptions': ['mode S', 'assumed handler contract step_frame'],
+         'cone': {'S': ['raft']}},
+ 'C07': {'title': 'Ready contract: exact, ordered, persisted-only hand-off of entries',
+         'modules': ['top', 'prelude', 'pb', 'inflights', 'progress', 'quorum', 'tracker', 'log_unstable', 'storage_trait', 'raft_log', 'raft', 'raw_node'],
+         'body': {'P': ['log_unstable', 'raft_log'], 'S': ['log_unstable', 'raft_log', 'raw_node']},
+         'modes': ['P', 'S'],
+         'claim': "PARTIAL (every per-call clause of ready/has_ready/gen_light_ready; the lifetime 'exactly once' statement is not lifted from them)",
+         'decided': ['has_ready() is true exactly when ready() would return something: both equal the same spec function of the node state',
+                     'ready(): entries = the whole unstable suffix; hs = Some(current (term, vote, commit)) iff it differs from the last one handed out; '
+                     'must_sync whenever entries, a snapshot, or a term/vote change are included; with a pending snapshot no committed entries are handed out '
+                     'and commit_since_index jumps to the snapshot index; a record (number, last entry, snapshot) is pushed',
+                     'gen_light_ready(): committed entries = limit_prefix(log[max(since+1, first) ..= min(committed, persisted + limit)], '
+                     'max_committed_size_per_ready): contiguous, starting right after commit_since_index (given first <= since+1), never beyond min(committed, '
+                     'persisted + max_apply_unpersisted_log_limit); commit_since_index advances to the last handed index; messages are moved out exactly once',
+                     'RaftLog::next_entries_since / has_next_entries_since / applied_index_upper_bound equal the model (C14)'],
+         'undecided': ["'over a node's lifetime exactly its committed log, no gap or duplicate' as a history statement (the per-call clauses chain, the "
+                       'induction is not mechanised)',
+                       'commit_ready / on_persist_ready / advance_append are not under contract in this revision',
+                       'the two asserts inside the records.drain(..) loop at the follower->leader edge (R10 cut)'],
+         'assumptions': ['raw_node.rs functions are verified in mode S', 'payload-size sums fit in usize'],
+         'cone': {'P': [], 'S': []}},
+ 'C05': {'title': 'Log matching; leaders append-only; committed prefix immutable',
+         'modules': ['top', 'prelude', 'pb', 'inflights', 'progress', 'quorum', 'tracker', 'log_unstable', 'storage_trait', 'raft_log', 'raft'],
+         'body': {'P': ['log_unstable', 'raft_log'], 'S': ['log_unstable', 'raft_log']},
+         'modes': ['P', 'S'],
+         'claim': 'PARTIAL (per node and per call: acceptance rule, truncation point, immutability of the committed prefix)',
+         'decided': ['RaftLog::maybe_append accepts iff (prev index, prev term) matches, truncates only from the first conflicting index, keeps every entry at '
+                     'or below the commit index (mode S: on every normal return with NO assumption on the message: a conflict at or below the commit index '
+                     'aborts instead of truncating), lowers persisted below the conflict, holds the new entries afterwards',
+                     "RaftLog::append / Unstable::truncate_and_append: log' = log[..after) ++ ents; nothing below the first appended index changes",
+                     'Raft::handle_append_entries: exactly one reply; accepted iff match, reply index = last new index; a rejection leaves the log unchanged '
+                     'and carries a hint (index <= min(m.index, last), term of that index <= m.log_term); the committed prefix is never altered',
+                     'find_conflict / find_conflict_by_term equal the model (C14)'],
+         'undecided': ["the pairwise statement over two nodes' logs (log matching proper)",
+                       "'a leader never removes or rewrites an entry of its own log while it leads' as a history statement (append_entry is not under contract "
+                       'in this revision)'],
+         'assumptions': ['mode S for raft.rs', 'message shape: contiguous entries with term > 0 (what peers running this library send)'],
+         'cone': {'P': [], 'S': ['raft']}},
+ 'C04': {'title': 'Commit rule: only own-term entries that are durable on a quorum',
+         'modules': ['top', 'prelude', 'pb', 'inflights', 'progress', 'quorum', 'tracker', 'log_unstable', 'storage_trait', 'raft_log', 'raft'],
+         'body': {'P': ['quorum', 'tracker', 'log_unstable', 'raft_log'], 'S': ['quorum', 'tracker', 'log_unstable', 'raft_log']},
+         'cone': {'P': ['progress'], 'S': ['progress', 'raft']},
+         'modes': ['P', 'S'],
+         'claim': 'PARTIAL (leader-side rule per call; follower-side bounds per call)',
+         'decided': ['Raft::maybe_commit advances the commit index only to an index <= the quorum index of the active (joint) configuration over the progress '
+                     "map's matched indexes (C11) whose entry carries the leader's current term (RaftLog::maybe_commit)",
+                     "the leader's own matched index is written only by reset (= persisted) and by on_persist_entries (to the index the log just accepted as "
+                     'persisted); maybe_persist refuses indexes at or beyond the first not-yet-written update and requires the stored term to match',
+                     'follower: maybe_append / handle_append_entries never commit beyond min(leader commit, last new index); handle_heartbeat never beyond '
+                     'm.commit; heartbeats advertise commit <= matched'],
+         'undecided': ["'a non-leader's commit index never moves beyond an index some leader committed' and survival under minority crash (global)"],
+         'assumptions': ['mode S for raft.rs', 'ProgressTracker::get_mut assumed (HashMap::get_mut has no vstd spec)', 'R10/R9 of C11']},
+ 'C15': {'title': 'Snapshot install and log compaction preserve state and safety',
+         'modules': ['top', 'prelude', 'pb', 'inflights', 'progress', 'quorum', 'tracker', 'log_unstable', 'storage_trait', 'raft_log', 'raft'],
+         'body': {'P': ['log_unstable', 'raft_log', 'progress'], 'S': ['log_unstable', 'raft_log', 'progress']},
+         'modes': ['P', 'S'],
+         'claim': 'PARTIAL (install decision, log/commit effect, leader-side send/resume rules; configuration rebuild is assumed until the membership unit)',
+         'decided': ['Raft::restore: returns false with nothing changed if the snapshot is behind the commit index or does not list the node; if (index, term) '
+                     'matches the log and no snapshot was requested it only commits up to the index and discards nothing; otherwise RaftLog::restore: commit = '
+                     'index, boundary term = snapshot term, later appends continue at index+1, pending request cleared',
+                     'RaftLog::restore / Unstable::restore equal the model; persisted is lowered to the old commit index',
+                     'leader: maybe_send_append sends MsgSnapshot only if the follower asked for one or the term/entries it needs are unavailable, and then '
+                     'moves the progress to Snapshot(index); become_probe after a snapshot resumes at max(matched, pending_snapshot)+1'],
+         'undecided': ["equality of application state; 'compaction changes no other guarantee'",
+                       'the configuration rebuilt from the snapshot (confchange::restore, post_conf_change) is an assumed contract in this revision',
+                       'handle_snapshot_status / handle_append_response are not under contract in this revision'],
+         'assumptions': ['mode S for raft.rs', 'R9: the iterator chain membership test of Raft::restore; R10: its untested tail'],
+         'cone': {'P': [], 'S': ['raft']}},
+ 'C09': {'title': 'Membership changes: one at a time, config is a function of applied log',
+         'modules': ['top', 'prelude', 'pb', 'inflights', 'progress', 'quorum', 'tracker', 'log_unstable', 'storage_trait', 'raft_log', 'raft'],
+         'body': {'S': []},
+         'modes': ['S'],
+         'claim': 'PARTIAL (election-side clauses only in this revision: (b) and (d) of DESIGN.md section 5/C09)',
+         'decided': ['hup: a leader ignores it; no campaign starts while a committed membership change is unapplied (the range (applied or pending snapshot, '
+                     'committed] holds a conf-change entry): the node is left completely unchanged',
+                     'tick_election never steps MsgHup when the node is not promotable (only election_elapsed changes) or before the randomized timeout',
+                     'become_leader conservatively sets pending_conf_index to the last index of its log and appends exactly one entry of its own term'],
+         'undecided': ["the proposal filter of step_leader/MsgPropose, commit_apply's auto-leave proposal, apply_conf_change/post_conf_change (promotable = "
+                       'voter) and the function-of-applied-log statement are not under contract in this revision',
+                       "'a leader's log never holds more than one unapplied membership entry' across leader changes (cluster-level)"],
+         'assumptions': ['mode S',
+                         'has_unapplied_conf_changes is an ASSUMED contract (RaftLog::scan takes an FnMut): it reports exactly whether the range holds a '
+                         'conf-change entry'],
+         'cone': {'S': ['raft']}},
+ 'C17': {'title': 'Leadership transfer hands off safely and never wedges the leader',
+         'modules': ['top', 'prelude', 'pb', 'inflights', 'progress', 'quorum', 'tracker', 'log_unstable', 'storage_trait', 'raft_log', 'raft'],
+         'body': {'S': []},
+         'modes': ['S'],
+         'claim': 'PARTIAL (every leader-side per-call clause; the healthy-cluster completion sentence is not decided)',
+         'decided': ["MsgTimeoutNow is pushed only by handle_transfer_leader and by the tail of handle_append_response, and only when the target's matched "
+                     "index equals the leader's last index (and, in handle_append_response, the response came from the pending transfer target and was not a "
+                     'rejection)',
+                     'step_leader/MsgPropose with a pending transfer returns ProposalDropped with the node completely unchanged',
+                     'handle_transfer_leader: a request naming an untracked id or a learner changes nothing; naming the leader itself changes at most '
+                     'lead_transferee (to None); a repeated request for the pending target changes nothing; a new target is recorded and the election clock '
+                     'restarts',
+                     'tick_heartbeat clears the transfer when election_elapsed reaches election_timeout (if the node is still leader); no tick starts a '
+                     'transfer; reset / become_follower / become_leader clear it'],
+         'undecided': ["'when a transfer completes in a healthy cluster the target leads a higher term ... old leader follows' (multi-node, "
+                       'liveness-flavoured)',
+                       'post_conf_change aborting the transfer when the target leaves the voters is an assumed contract in this revision'],
+         'assumptions': ['mode S', 'assumed contracts: bcast_append, bcast_heartbeat, check_quorum_active, ProgressTracker::get_mut'],
+         'cone': {'S': ['raft']}},
+ 'C08': {'title': 'ReadIndex (Safe mode) is linearizable',
+         'modules': ['top', 'prelude', 'pb', 'inflights', 'progress', 'quorum', 'tracker', 'log_unstable', 'storage_trait', 'raft_log', 'raft'],
+         'body': {'S': []},
+         'cone': {'S': ['quorum', 'raft', 'tracker']},
+         'modes': ['S'],
+         'claim': 'PARTIAL (leader- and requester-side per-call clauses over an abstract model of the pending-read table)',
+         'decided': ["step_leader/MsgReadIndex: dropped with nothing changed unless the entry at the commit index carries the leader's own term",
+                     'handle_heartbeat_response releases read states (locally or as MsgReadIndexResp) only in Safe mode, for a non-empty context that is '
+                     'pending, and only if the ack set of that context including the responder contains a majority of each voter set (has_quorum, C11)',
+                     'handle_ready_read_index: a request that originated locally (from == 0 or self) becomes a ReadState with the given index; any other '
+                     'request is answered by a MsgReadIndexResp to req.from only, carrying that index',
+                     'reset drops all pending reads'],
+         'undecided': ['the index is >= every commit index reached anywhere at request time; the stale-leader clause (both need leader completeness + '
+                       'real-time order)',
+                       'ReadOnly::{add_request, recv_ack, advance} are ASSUMED contracts over an abstract model (HashMap keyed by Vec<u8> has no key model in '
+                       'vstd)'],
+         'assumptions': ['mode S', 'abstract ReadOnly model (spec/raft.vrs read_only_types)']}}
